@@ -57,7 +57,10 @@ Print Assumptions C01_at_most_one_decision.
 (* The model is the code's shape: the source constructs the model depends on are still there. *)
 Example C01_code_shape :
   md_records_decision && ps_sendby_only_lowered_and_requeued && ps_new_trace_sendby_is_now_plus_timeout &&
-  tick_takes_expired_with_max && collect_tick_runs_send_expired_at_now && collect_send_early_branch = true.
+  tick_takes_expired_with_max && collect_tick_runs_send_expired_at_now && collect_send_early_branch &&
+  (* retention premise: a drop decision is remembered synchronously (recent-drop set) and a config reload that
+     resizes the dropped-trace filter only records the next capacity — it never re-creates a filter generation *)
+  record_drop_is_synchronously_remembered && negb resize_touches_filter_generations = true.
 Proof. vm_compute. reflexivity. Qed.
 
 (* Non-vacuity: root, child, a late span after a keep and after a drop, an ejection and a reload. *)
